@@ -127,6 +127,11 @@ def render_single(c):
         return 'with cc as (select a, c from int1.t2) select %s, cc.c from %s join cc on %s = cc.a' % (a, t1, a)
     if b == 'cte-mixedcase':
         return 'with Cc as (select a, c from int1.t2) select %s, Cc.c from %s join Cc on %s = Cc.a' % (a, t1, a)
+    if b == 'cte-chained':
+        return ('with c1 as (select a, c from int1.t2), c2 as (select a, c from c1 where c > 0) '
+                'select %s, c2.c from %s join c2 on %s = c2.a' % (a, t1, a))
+    if b == 'cte-chained-only':
+        return 'with c1 as (select %s, %s from %s), c2 as (select a from c1 where b = 1) select a from c2' % (a, bb, t1)
     if b == 'cte-only':
         return 'with Totals as (select %s, %s from %s) select a from Totals where b = 1' % (a, bb, t1)
     if b == 'cast':
